@@ -1040,6 +1040,8 @@ def _evaluator(repo, methods=None):
             return enum
         if nm == "Vec":
             return hd_eval.VecV
+        if nm in ("np", "numpy"):
+            return hd_eval.NUMPY
         for st in mod.tree.body:
             if isinstance(st, ast.Assign) and len(st.targets) == 1 and isinstance(st.targets[0], ast.Name) and st.targets[0].id == nm:
                 cache[nm] = ev.expr(st.value, {})
@@ -1054,6 +1056,16 @@ def _evaluator(repo, methods=None):
             return hd_eval.NS("itertools", {k: getattr(itertools, k) for k in ("combinations", "permutations", "product", "chain", "accumulate", "pairwise", "islice")})
         raise KeyError(nm)
     ev.g = g
+    # members of the enumeration: the first listed value of each (MultiValueEnum) and the methods / properties of the class
+    tcls = repo.cls(MA, "_BaseAttribute.Type")
+    ev.member_values = {}
+    for st in tcls.body:
+        if isinstance(st, ast.Assign) and len(st.targets) == 1 and isinstance(st.targets[0], ast.Name):
+            first = st.value.elts[0] if isinstance(st.value, ast.Tuple) and st.value.elts else st.value
+            if isinstance(first, ast.Name) and first.id in ("bool", "int", "float", "complex", "str"):
+                ev.member_values[st.targets[0].id] = {"bool": bool, "int": int, "float": float, "complex": complex, "str": str}[first.id]
+        elif isinstance(st, ast.FunctionDef):
+            ev.methods.setdefault(st.name, st)
     return ev, enum, members
 
 
